@@ -3,7 +3,10 @@
 // would otherwise pass vacuously forever).
 package fixture
 
-import "sort"
+import (
+	"reflect"
+	"sort"
+)
 
 var scratch [64]byte // package-level scratch buffer (C18-GLOB must fire)
 
@@ -38,5 +41,22 @@ func (p *P) Unmarshal(raw []byte) error {
 		raw[0] &= 0x1f
 	}
 	go func() {}() // forbidden construct (C18-GLOB)
+	return nil
+}
+
+type buf struct{ bytes []byte }
+
+// fill hands the rest of the buffer to a reflect setter: the target then shares memory with the buffer.
+func (b *buf) fill(v interface{}) {
+	reflect.Indirect(reflect.ValueOf(v)).SetBytes(b.bytes)
+}
+
+type Q struct{ Opaque []byte }
+
+// Unmarshal keeps a reference into the caller's buffer through a local holder and a reflect setter
+// (C18-RETAIN must fire: two sites that each look harmless).
+func (q *Q) Unmarshal(raw []byte) error {
+	b := buf{bytes: raw[4:]}
+	b.fill(&q.Opaque)
 	return nil
 }
